@@ -421,3 +421,29 @@ Fixpoint dir_run (listing : list str) (d : dfd) (ops : list dop) : dfd * list dr
       let '(d2, rs) := dir_run listing d1 ops' in
       (d2, r :: rs)
   end.
+
+(* ---- a directory that changes while descriptions are open on it --------------------------------- *)
+(* A description reads the listing the directory has at its FIRST read after it was opened or rewound
+   (Seek(0, io.SeekStart) drops it): entries created or removed before that read are seen, and a rewind makes
+   the next read list the directory again.  What an already started listing shows of later changes is NOT
+   specified by POSIX (readdir(3): "whether readdir returns an entry for that file is unspecified"); the
+   snapshot below is what MemFile/OrefaFile do, and the oracle comparison with os.File is made only where the
+   two cannot differ (no change between the first read and the next rewind). *)
+Record ldfd := { l_d : dfd; l_snap : option (list str) }.
+
+Definition ldfd0 : ldfd := {| l_d := {| d_cursor := 0; d_closed := false |}; l_snap := None |}.
+
+(* cur: the content of the directory now, in the order the file system delivers it *)
+Definition dir_step_live (cur : list str) (x : ldfd) (op : dop) : ldfd * dres :=
+  if d_closed (l_d x) then (x, D_Err X_Closed)
+  else
+    match op with
+    | DReadDir _ | DReaddirnames _ =>
+        let snap := match l_snap x with Some l => l | None => cur end in
+        let '(d', r) := dir_step snap (l_d x) op in
+        ({| l_d := d'; l_snap := Some snap |}, r)
+    | DRewind => (ldfd0, D_Int 0)
+    | DRead _ | DClose =>
+        let '(d', r) := dir_step [] (l_d x) op in
+        ({| l_d := d'; l_snap := l_snap x |}, r)
+    end.
